@@ -150,7 +150,15 @@ def k5_schedules(run, rng, ncases, norders):
                                 run.extra["tasks_reexecuted"] = run.extra.get("tasks_reexecuted", 0) + 1
         nblocks = len(chunks)
         run.count(C.json.dumps(case, sort_keys=True), nblocks >= 3)
-        bad = [(k, a.tolist()) for k, a in results.items() if not np.allclose(a, eager, equal_nan=True, rtol=1e-12, atol=0)]
+        # outside the stated domain (C01/C06): nanarg* of a group that is entirely NaN, arg* of a group containing NaN
+        keep = np.ones(len(case["expected"]), dtype=bool)
+        if "arg" in func:
+            for gi, g in enumerate(case["expected"]):
+                mem = v[lab == g]
+                if (func.startswith("nan") and (len(mem) == 0 or np.isnan(mem).all())) or (not func.startswith("nan") and np.isnan(mem).any()):
+                    keep[gi] = False
+        bad = [(k, a.tolist()) for k, a in results.items()
+               if a.shape != eager.shape or not np.allclose(a[..., keep], eager[..., keep], equal_nan=True, rtol=1e-12, atol=0)]
         if bad:
             run.violation({"property": "C03", "kind": "result depends on split_every / scheduler / task order",
                            "case": case, "eager": eager.tolist(), "differing": [(str(k), a) for k, a in bad[:4]],
